@@ -14,3 +14,18 @@ pub open spec fn nest_lets(bs: Seq<LetBinding>, body: Expr, i: int) -> Expr
 {
     if i >= bs.len() || i < 0 { body } else { let_node(bs[i], nest_lets(bs, body, i + 1)) }
 }
+
+// ---- PatternTranslator::translate, base case of the match compilation (no scrutinee variables left)
+#[verifier::external_body] pub struct CExprRef { _p: () }          // &'a Expr<'a>: the right-hand side of an alternative
+pub struct Equation { pub result: CExprRef }
+impl Clone for CExprRef { #[verifier::external_body] fn clone(&self) -> (r: CExprRef) ensures r == *self { unimplemented!() } }
+impl Copy for CExprRef {}
+// std, documented: the first / last element of a slice, None if it is empty
+#[verifier::external_body]
+pub fn slice_first(s: &Vec<Equation>) -> (r: Option<&Equation>)
+    ensures s@.len() == 0 ==> r is None, s@.len() > 0 ==> r is Some && *r->Some_0 == s@[0]
+{ unimplemented!() }
+#[verifier::external_body]
+pub fn slice_last(s: &Vec<Equation>) -> (r: Option<&Equation>)
+    ensures s@.len() == 0 ==> r is None, s@.len() > 0 ==> r is Some && *r->Some_0 == s@[s@.len() - 1]
+{ unimplemented!() }
